@@ -274,6 +274,7 @@ def check_history(case, snaps, exc):
     if exc is not None:
         return [V('C16', 'C16.history-exception', exc[1], 'operation %d raised: %s' % (exc[0], exc[2][-600:]))]
     model = {}
+    overrides_of = {}
     for i, (h, snap) in enumerate(zip(case['history'], snaps)):
         if h['op'] in ('generate', 'process_generate'):
             # adopt the freshly generated composite (shape checked below)
@@ -305,6 +306,18 @@ def check_history(case, snaps, exc):
                           'after operation %d (%s) the named process reads %r' % (i, _desc(h), node))]
             pid = node.split('|')[0]
             model = {nm: _replace_marker(t, pid, node) for nm, t in model.items()}
+            overrides_of.setdefault(h['into'], []).append(h['target'])
+        if h['op'].startswith('merge') and overrides_of.get(h['into']):
+            # a composite re-applies the overrides it holds to whatever process sits at the
+            # named keys after a merge; process objects are shared between composites, so the
+            # change shows wherever that object appears
+            for target in overrides_of[h['into']]:
+                node = snap[h['into']]['processes']
+                for seg in target:
+                    node = node.get(seg) if isinstance(node, dict) else None
+                if isinstance(node, str):
+                    pid = node.split('|')[0]
+                    model = {nm: _replace_marker(t, pid, node) for nm, t in model.items()}
         for nm, exp in model.items():
             got = snap[nm]
             if not same_tree(got, exp):
